@@ -191,8 +191,13 @@ func c18FrameCase(c *Ctx) *Result {
 			full := append([]byte{0, 0, 10}, append(payload, 0xff)...)
 			raw = full[:r.Intn(len(full))]
 		case "length-above-buffer":
-			raw = append([]byte{0, 0, 200}, make([]byte, 201)...)
-			raw[len(raw)-1] = 0xff
+			// a well-formed datagram of 200 bytes whose payload happens to
+			// contain what looks like a small frame, followed by a genuine one
+			body := make([]byte, 200)
+			copy(body, []byte{0x00, 0x00, 0x03, 'a', 'b', 'c', 0xff})
+			raw = append([]byte{0, 0, 200}, body...)
+			raw = append(raw, 0xff)
+			raw = append(raw, append([]byte{0, 0, 5}, append([]byte("after"), 0xff)...)...)
 		}
 		params["malformed"] = kind
 		cc.Write(raw)
@@ -205,6 +210,17 @@ func c18FrameCase(c *Ctx) *Result {
 		res.Obs["malformed_frames"]++
 		if err == nil {
 			sig, detail = "malformed-frame-accepted|"+kind, fmt.Sprintf("Read returned %d bytes and no error for a %s frame %x", k, kind, raw[:min(len(raw), 20)])
+		}
+		if sig == "" && kind == "length-above-buffer" {
+			// the oversized datagram was reported; the stream must not be silently out of step now:
+			// a later Read gives the next genuine datagram or an error, never bytes from inside the oversized one
+			big := make([]byte, 4096)
+			sc.SetReadDeadline(time.Now().Add(5 * time.Second))
+			k2, err2 := rt.Read(big)
+			if err2 == nil && string(big[:k2]) != "after" {
+				sig, detail = "desynchronised-after-oversized-datagram", fmt.Sprintf("after the short-buffer error the next Read silently returned %q, bytes from inside the oversized datagram; the next datagram written was \"after\"", big[:min(k2, 16)])
+			}
+			res.Obs["reads_after_oversized"]++
 		}
 	}
 	res.Shape = shapeHash(ck, mode, c.Idx%8)
